@@ -17,9 +17,9 @@ package gpusharing
 // Delete: success or NotFound => the ConfigMap is gone; any other error => store unchanged.
 //@ define cmObj(o ref) *v1.ConfigMap = unbox(o, "*v1.ConfigMap")
 //@ define keyOfCM(o ref) string = gpusharingconfigmap.cmKey(cmObj(o).Namespace, cmObj(o).Name)
-//@ func PARKED.sigs.k8s.io/controller-runtime/pkg/client.Client.Delete
+//@ func sigs.k8s.io/controller-runtime/pkg/client.Client.Delete
 //@   props C11
-//@   requires obj != nil
+//@   requires obj != nil && typeis(obj, "*v1.ConfigMap")     // ConfigMap-only model: any other object type fails this precondition loudly
 //@   modifies family(gpusharingconfigmap.cmStored(""))
 //@   ensures forall k string :: k != keyOfCM(obj) ==> gpusharingconfigmap.cmStored(k) == old(gpusharingconfigmap.cmStored(k))
 //@   ensures typeis(obj, "*v1.ConfigMap") && (result == nil || gpusharingconfigmap.isNotFoundErr(result)) ==> gpusharingconfigmap.cmStored(keyOfCM(obj)) == nil
